@@ -50,7 +50,7 @@ bool SceneGen::boxFree(const RectB &c, int ignore) {
 bool SceneGen::placeBox(RectB &out) {
     for (int t = 0; t < 60; t++) {
         RectB c{(double)r.below(80) * 5, (double)r.below(70) * 5, (double)(20 + r.below(7) * 10), (double)(20 + r.below(6) * 10)};
-        if (touching && r.chance(0.5) && !shapes.empty()) {
+        if (touching && r.chance(0.8) && !shapes.empty()) {
             // put it flush against an existing shape (gap 0, possibly collinear edges)
             std::vector<int> ids; for (auto &kv : shapes) if (kv.second.alive) ids.push_back(kv.first);
             if (!ids.empty()) {
